@@ -100,6 +100,15 @@ def predicate(case, out):
     nx, ny = case["shape"]
     o = np.asarray(out["out"])
     b = out["brush"]
+    if case.get("diameter") is not None:
+        # independent oracle of the circular brush: odd size >= ceil(d), centred disc of the given diameter (<=)
+        import math
+        dd = float(case["diameter"])
+        size = math.ceil(dd) + (1 if math.ceil(dd) % 2 == 0 else 0)
+        cc = (size - 1) / 2.0
+        disc = [[1 if math.hypot(i - cc, j - cc) <= dd / 2 else 0 for j in range(size)] for i in range(size)]
+        if [list(map(int, r)) for r in b] != disc:
+            return ("circular-brush-shape", f"circular_brush({dd}) is not the centred disc of that diameter: {b} vs {disc}")
     sym = all(b[a][d] == b[len(b) - 1 - a][len(b) - 1 - d] for a in range(len(b)) for d in range(len(b)))
     # the property quantifies over circular (centrally symmetric) brushes; for the hand-made asymmetric brush of the thorough tier the void
     # region is a union of footprints of the point-reflected brush, so only the solid half (and model == implementation) is checked there
